@@ -115,7 +115,7 @@ def run_shard(acc, prop, tier, seed, shard, nshards, **kw):
         fn_leg(acc, srv, sub_rng(seed, PROP, tier, shard, "fn"), 25000 if tier == "quick" else 800000)
     finally:
         srv.close()
-    _w.shard(acc, PROP, tier, seed, shard, nshards, factory, WEIGHTS, (10, (140, 220)), (260, (140, 300)), CORR)
+    _w.shard(acc, PROP, tier, seed, shard, nshards, factory, WEIGHTS, (14, (140, 220)), (260, (140, 300)), CORR)
 
 
 def floors(acc, tier):
